@@ -1,6 +1,7 @@
 package main
 
 import (
+	"strconv"
 	"bytes"
 	"encoding/json"
 	"fmt"
@@ -26,13 +27,32 @@ type refTable struct {
 
 // makeRef runs a worker in -mode ref (its own process) and returns the table.
 func makeRef(bin string, b *build, s *propSpec) (*refTable, string) {
-	args := append(baseArgs(s, b), "-mode", "ref")
-	res := runWorker(workerJob{bin: bin, procs: 1, args: args, timeout: 10 * time.Minute})
-	for _, raw := range res.raw {
-		_ = raw
+	// A corpus text whose parse or print kills the process (an unrecovered panic
+	// on a goroutine the code under test started) is left out and counts as not
+	// accepted; the pass is repeated without it.
+	var skip []string
+	for attempt := 0; ; attempt++ {
+		progress := filepath.Join(scratch, "progress-ref")
+		os.Remove(progress)
+		args := append(baseArgs(s, b), "-mode", "ref", "-progress", progress)
+		if len(skip) > 0 {
+			args = append(args, "-skip", strings.Join(skip, ","))
+		}
+		res := runWorker(workerJob{bin: bin, procs: 1, args: args, timeout: 10 * time.Minute})
+		t, herr := parseRef(res)
+		if herr == "" || attempt >= 12 || res.exitCode == 0 || crashSignature(res.stderr) == "" {
+			return t, herr
+		}
+		pb, err := os.ReadFile(progress)
+		if err != nil {
+			return t, herr
+		}
+		idx := strings.TrimSpace(string(pb))
+		if _, err := strconv.Atoi(idx); err != nil {
+			return t, herr
+		}
+		skip = append(skip, idx)
 	}
-	// The ref record carries its payload in "extra"; re-parse the raw lines.
-	return parseRef(res)
 }
 
 func parseRef(res *workerResult) (*refTable, string) {
@@ -62,7 +82,7 @@ func buildNative(b *build) (string, string) {
 	if err := copyTree(filepath.Join(root, "sim", "_tree", "zzsim"), filepath.Join(tree, "zzsim"), nil); err != nil {
 		return "", err.Error()
 	}
-	cmd := exec.Command(filepath.Join(root, "bin", "instrument"), "-dir", tree, "-yields=false", "-locks=false", "-clock=false", "-go=false", "-maps=false")
+	cmd := exec.Command(filepath.Join(root, "bin", "instrument"), "-dir", tree, "-yields=false", "-locks=false", "-clock=false", "-go=false", "-chans=false", "-maps=false")
 	cmd.Env = goEnv()
 	var errb bytes.Buffer
 	cmd.Stderr = &errb
